@@ -47,7 +47,7 @@ pub fn check_value(v: u32, own: &mut Vec<u8>) -> Result<usize, String> {
 pub fn check_entry(klen: usize, vlen: usize) -> Result<(), String> {
     // the key must sort after a small first entry; content derived from the lengths
     let first = (vec![0u8], vec![1u8, 2, 3]);
-    let mut key = vec![0x42u8; klen.max(1)];
+    let mut key = vec![0xA0u8; klen.max(1)];
     if klen == 0 {
         key.clear();
     }
@@ -67,6 +67,32 @@ pub fn check_entry(klen: usize, vlen: usize) -> Result<(), String> {
         let got = run_query(&bytes, &Query::Scan { rev: false, mode: CursorMode::Fresh })?;
         if got != alone {
             return Err(format!("a file holding only the entry with key length {klen}, value length {vlen} does not return it"));
+        }
+    }
+    // all three entries in ONE block (block size above their total), every entry on an offset
+    // slot: seeks probe the boundary entry's framing through the in-block binary search
+    if klen + vlen < (1 << 22) {
+        let one_block = FileCfg::layout(Some(1 << 23), Some(1), 0);
+        // two choices of the preceding key, so that a mis-framed probe of the boundary entry
+        // compares wrongly whichever garbage byte it reads (00/01 or 80.. from the length varint)
+        for first_byte in [0x30u8, 0x90] {
+        let mut entries = entries.clone();
+        if klen > 0 {
+            entries[0].0 = vec![first_byte];
+            // a second small entry before the boundary one: a seek for it must not be misled by a
+            // mis-framed probe of the boundary entry
+            entries.insert(1, (vec![first_byte, 0x01], vec![7u8, 7]));
+        }
+        let bytes = write_file(&one_block, &entries)?;
+        let model = vlib::model::Model::new(entries.clone());
+        let probes: Vec<Vec<u8>> = entries.iter().map(|e| e.0.clone()).collect();
+        let mut qs = crate::query::seek_queries(&probes, &[CursorMode::Fresh]);
+        qs.push(Query::Scan { rev: false, mode: CursorMode::Fresh });
+        qs.push(Query::Scan { rev: true, mode: CursorMode::Fresh });
+        for q in &qs {
+            crate::query::check_query(&bytes, &model, q)
+                .map_err(|e| format!("entry with key length {klen}, value length {vlen} sharing a block with its neighbours: {e}"))?;
+        }
         }
     }
     let bytes = write_file(&cfg, &entries)?;
@@ -196,7 +222,7 @@ pub fn run(tier: Tier) -> i32 {
     }
     rep.acc.merge(a3);
     rep.acc.merge(big_thread.join().expect("big-entry thread panicked"));
-    rep.set("rule", json!("E4: all 2^32 length values through the verif re-export of the private codec: encode must produce 1..=5 bytes, and decode must return the value and consume exactly the encoded length on (i) the exact bytes, (ii) the bytes followed by 0xFF.., (iii) followed by 0x00..; E2: entries whose key or value length is 2^7, 2^14, 2^21 -1/0/+1 (plus one 2^28-byte value; thorough: 2^28 -1/0/+1 for keys and values) written through Writer, read back through Reader (both scans) and decoded by the independent decoder; distinct_nontrivial = values needing >= 2 bytes plus boundary entries"));
+    rep.set("rule", json!("E4: all 2^32 length values through the verif re-export of the private codec: encode must produce 1..=5 bytes, and decode must return the value and consume exactly the encoded length on (i) the exact bytes, (ii) the bytes followed by 0xFF.., (iii) followed by 0x00..; E2: entries whose key or value length is 2^7, 2^14, 2^21 -1/0/+1 (plus one 2^28-byte value; thorough: 2^28 -1/0/+1 for keys and values) written through Writer, read back through Reader (both scans; alone in its file; and sharing one block with its neighbours, reached through GE/LE/EQ seeks) and decoded by the independent decoder; distinct_nontrivial = values needing >= 2 bytes plus boundary entries"));
     rep.set("bound", json!({"values": "0..=2^32-1 (complete)", "api_boundary_entries": pairs.len() + quick_big.len(), "largest_api_length": lens.iter().max()}));
     rep.assume("API-level entries of 2^32-1 bytes are not run (>= 12 GiB of copies per case); that boundary is covered at codec level only");
     rep.finish()
